@@ -49,37 +49,39 @@ Inductive tree :=
 | XStream (o : option tree)
 | XBad.                                      (* dangling id / Unknown / out of fuel: never on wf tables *)
 
+(** one level of expansion: the node for a definition of kind [k] with id [i], given the
+    expansion [ex] of the types it mentions *)
+Definition knode (ex : ty -> tree) (i : tid) (k : kind) : tree :=
+  match k with
+  | KType t' => ex t'                               (* aliases are transparent *)
+  | KRecord fs => XRecord (map (fun p => (fst p, ex (snd p))) fs)
+  | KResource => XResource i
+  | KOwn r => XOwn (ex (TId r))
+  | KBorrow r => XBorrow (ex (TId r))
+  | KFlags ns => XFlags ns
+  | KTuple ts => XTuple (map ex ts)
+  | KVariant cs => XVariant (map (fun p => (fst p, option_map ex (snd p))) cs)
+  | KEnum ns => XEnum ns
+  | KOption t' => XOption (ex t')
+  | KResult a b => XResult (option_map ex a) (option_map ex b)
+  | KList t' => XList (ex t')
+  | KFixed t' n => XFixed (ex t') n
+  | KMap k v => XMap (ex k) (ex v)
+  | KFuture o => XFuture (option_map ex o)
+  | KStream o => XStream (option_map ex o)
+  | KUnknown => XBad
+  end.
+
 Fixpoint expand (T : table) (fuel : nat) (t : ty) : tree :=
   match t with
   | TPrim p => XPrim p
   | TId i =>
       match fuel with
       | O => XBad
-      | S f =>
-          match lookup T i with
-          | None => XBad
-          | Some d =>
-              let ex := expand T f in
-              match tkind d with
-              | KType t' => ex t'
-              | KRecord fs => XRecord (map (fun p => (fst p, ex (snd p))) fs)
-              | KResource => XResource i
-              | KOwn r => XOwn (ex (TId r))
-              | KBorrow r => XBorrow (ex (TId r))
-              | KFlags ns => XFlags ns
-              | KTuple ts => XTuple (map ex ts)
-              | KVariant cs => XVariant (map (fun p => (fst p, option_map ex (snd p))) cs)
-              | KEnum ns => XEnum ns
-              | KOption t' => XOption (ex t')
-              | KResult a b => XResult (option_map ex a) (option_map ex b)
-              | KList t' => XList (ex t')
-              | KFixed t' n => XFixed (ex t') n
-              | KMap k v => XMap (ex k) (ex v)
-              | KFuture o => XFuture (option_map ex o)
-              | KStream o => XStream (option_map ex o)
-              | KUnknown => XBad
-              end
-          end
+      | S f => match lookup T i with
+               | None => XBad
+               | Some d => knode (expand T f) i (tkind d)
+               end
       end
   end.
 
